@@ -298,6 +298,33 @@ def _optimize_free(max_iter, fixed=(2,)):
     return fn
 
 
+def _loaded_export(P, g):
+    """a graph LOADED from a file (so that it owns parameters, here with a non-unit offset quaternion, shared with its
+    landmark edges) is exported: nothing reachable from it may change, and chi^2 is the same before and after"""
+    from .c13 import same_as_snapshot, value_snapshot
+    from .c14 import SE3_FILE, make_specs
+    from .iokit import capture_logs, install_io
+
+    fs = install_io(P, g)
+    capture_logs(g)
+    ids = {k: P.int("id_" + k) for k in ("a2", "b2", "a3", "b3", "l2", "l3", "p2")}
+    P.distinct(list(ids.values()))
+    pid = P.int("pid")
+    S = make_specs(P, g, ids, pid)
+    sp = S["PARAMS_SE3OFFSET"]
+    sp.numbers = sp.numbers[:4] + P.reals("rawq", 4)
+    fs.files["in.g2o"] = "".join(S[nm].text(" ", "\n") for nm in SE3_FILE)
+    G = g.Graph.from_g2o("in.g2o")
+    snap = value_snapshot(G)
+    chi_before = [e.calc_chi2() for e in G._edges]
+    G.to_g2o("out1.g2o")
+    same_as_snapshot(P, "after_export", G, snap)
+    G.to_g2o("out2.g2o")
+    same_as_snapshot(P, "after_second_export", G, snap)
+    P.check_eq("chi2_unchanged_by_export", [e.calc_chi2() for e in G._edges], chi_before, tol=1e-12)
+    P.check("same_text_twice", len(fs.files["out1.g2o"].split("\n")) == len(fs.files["out2.g2o"].split("\n")))
+
+
 def _fp_restore(kind):
     """IEEE binary64: the numerical-differentiation fallback leaves every pose component bit-identical"""
 
@@ -340,6 +367,7 @@ def _fp_restore(kind):
 def cases(tier):
     out = []
     v = 1 if tier == "quick" else 3
+    out.append(Case("loaded-graph-export", _loaded_export, timeout=20, old_timeout=30, validate=1, feas_timeout_ms=1500, val_tol=1e-6, shards=2))
     for kind in POSE_KINDS:
         out.append(Case("fp-restore-%s" % kind, _fp_restore(kind), timeout=120, old_timeout=120, validate=3, shadow=False))
     fams = POSE_KINDS
